@@ -22,8 +22,8 @@ LEVEL_TEXT = ('Partial. Proved (Coq/Coquelicot/Interval) about what optimism add
               'and jax.jvp(jax.grad) of the energy density versus 6th-order central differences of the same energy.')
 TECHNIQUE = 'Coq proof (Reals + Coquelicot + Interval) over regenerated kernels and hand models; binary64 correspondence; AD-vs-finite-difference comparison of every material model'
 GEN = ['Math', 'TensorMathFun', 'TensorMathAD']
-TARGETS = ['model/M_C10.vo', 'proofs/L_C10.vo']
-COQ_FILES = ['base/Num.v', 'model/M_C10.v', 'proofs/L_C10.v', 'props/P_C10.v']
+TARGETS = ['model/M_C10.vo', 'proofs/L_C10.vo', 'proofs/L_C10_DK.vo']
+COQ_FILES = ['base/Num.v', 'model/M_C10.v', 'proofs/L_C10.v', 'proofs/L_C10_DK.v', 'props/P_C10.v']
 TRUSTED = ['Coq 8.16.1 kernel + vm_compute (no native_compute)',
            'tools/vlib/py2coq.py translator (expm1(x) -> exp x - 1, log1p(x) -> ln(1 + x): exact over R, less accurate in binary64 near 0)',
            'hand models of _log_relative_difference / _pow_relative_difference / the x2==x1 guard / _symmetric_matrix_function_jvp_helper (M_C10.v), '
@@ -114,7 +114,8 @@ def kernels_layer(ctx, model_ok):
         ratio = max(l1, l2) / min(l1, l2)
         # log1p(small/big - 1): forming small/big - 1 costs an absolute eps, i.e. a relative eps*ratio/|ln ratio| of the result when the
         # arguments are far apart (rounding of the expression as written, not a defect)
-        log_tol = 16 * EPS * (1.0 + (ratio / math.log(ratio) if ratio > 1.5 else 0.0))
+        # (XLA's CPU log1p itself is only accurate to ~120 ulp, measured against 60-digit arithmetic: floor of 512 ulp)
+        log_tol = 512 * EPS + 16 * EPS * (ratio / math.log(ratio) if ratio > 1.5 else 0.0)
         checks = [('sqrt', o['sqrt'], 8 * EPS), ('log', o['log'], log_tol), ('logref', o['logref'], 1e-9)]
         if o['exp'] is not None:
             checks.append(('exp', o['exp'], 8 * EPS * (1 + abs(l1) + abs(l2))))
@@ -327,6 +328,7 @@ class Model:
         self.upd = jax.jit(self.update)
         self.swb = jax.jit(jax.vmap(self.switch, (0, None, None))) if self.switch is not None else None
         self.h = 4e-4 if self.switch is not None else 1e-3
+        self.solver_tol = 1e-9 if fam == 'J2Plastic' else 0.0
 
 
 def rand_H(r, amp):
@@ -364,7 +366,8 @@ def fd_check(model, H, q, dt, dirs):
     rich = float(onp.abs(G[1] - G[2]).max())
     if rich > 1e-4 * gs:
         return None
-    tol = 64 * EPS * S1 * Wmax / h + rich / 8 + 1e-12 * gs
+    # models with an internal root solve (J2: residual tolerance 1e-10 * Y0) deliver the stress to that tolerance, not to rounding
+    tol = 64 * EPS * S1 * Wmax / h + rich / 8 + (1e-12 + model.solver_tol) * gs
     err = float(onp.abs(G[1] - g).max()) if onp.all(onp.isfinite(g)) else float('inf')
     info.update(grad_err=err, grad_tol=tol, grad_scale=gs)
     if not err <= tol:
@@ -381,7 +384,7 @@ def fd_check(model, H, q, dt, dirs):
         rich2 = float(onp.abs(F[1] - F[2]).max())
         if rich2 > 1e-3 * ts:
             return None
-        tol2 = 64 * EPS * S1 * S1 * max(Wmax, float(onp.abs(W2[2]).max())) / h ** 2 + rich2 / 8 + 1e-10 * ts
+        tol2 = 512 * EPS * S1 * S1 * max(Wmax, float(onp.abs(W2[2]).max())) / h ** 2 + rich2 / 8 + (1e-9 + 10 * model.solver_tol) * ts
         err2 = float(onp.abs(F[1] - T).max()) if onp.all(onp.isfinite(T)) else float('inf')
         info['tangent_err_%d' % d], info['tangent_tol_%d' % d], info['tangent_scale'] = err2, tol2, ts
         if not err2 <= tol2:
@@ -565,18 +568,37 @@ def finding_fails(ctx, f):
     return False
 
 
+SPECTRAL = {'LinearElastic': ('strain measure', ('logarithmic',)), 'HyperViscoelastic': None, 'MultiBranchHyperViscoelastic': None,
+            'PhaseFieldThreshold': ('kinematics', ('large deformations',)), 'J2Plastic': ('kinematics', ('large deformations', 'seth hill'))}
+
+
+def uses_spectral(cfg):
+    fam = cfg.get('family')
+    if fam not in SPECTRAL:
+        return False
+    return SPECTRAL[fam] is None or cfg.get('props', {}).get(SPECTRAL[fam][0], 'large deformations') in SPECTRAL[fam][1]
+
+
 def matches_finding(fl, f):
     """F13: the derivative rule of pow_symm with a non-integer exponent is wrong when two eigenvalues are nearly (not exactly) equal;
-    it surfaces in pow_symm's own JVP and in the TANGENT of J2 with Seth-Hill kinematics at repeated principal stretches -- nowhere else"""
-    if f['id'] != 'F13' or fl.get('kind') != 'conclusion':
+    it surfaces in pow_symm's own JVP and in J2 with Seth-Hill kinematics at repeated principal stretches -- nowhere else.
+    F14: the custom JVP rules of the spectral tensor functions are not correctly differentiable a second time where exactly/nearly two
+    eigenvalues coincide: the TANGENT (never the stress) of the log-strain based models is off at states with a double principal stretch."""
+    if fl.get('kind') != 'conclusion':
         return False
     case = fl.get('case') or {}
-    if case.get('layer') == 'tensorjvp':
-        return case.get('fn') == 'pow_symm m=0.25' and case.get('pattern') in ('double', 'triple')
-    if case.get('layer') == 'material':
-        cfg = case.get('cfg', {})
-        return (cfg.get('family') == 'J2Plastic' and cfg.get('props', {}).get('kinematics') == 'seth hill'
-                and case.get('pattern') in ('double', 'triple') and 'tangent action' in fl.get('what', '') )
+    what = fl.get('what', '')
+    if f['id'] == 'F13':
+        if case.get('layer') == 'tensorjvp':
+            return case.get('fn') == 'pow_symm m=0.25' and case.get('pattern') in ('double', 'triple')
+        if case.get('layer') == 'material':
+            cfg = case.get('cfg', {})
+            return (cfg.get('family') == 'J2Plastic' and cfg.get('props', {}).get('kinematics') == 'seth hill'
+                    and case.get('pattern') in ('double', 'triple'))
+    if f['id'] == 'F14':
+        if case.get('layer') == 'material':
+            return (uses_spectral(case.get('cfg', {})) and case.get('pattern') in ('double', 'triple') and 'tangent action' in what
+                    and 'stress' not in case.get('clauses', []))
     return False
 
 
